@@ -19,6 +19,10 @@ func genC16(out *Out, r *Rng, tier string, n int, shard int) {
 		g := NewDocGen(r, 1+r.Intn(3))
 		g.noGraph = r.Bool()
 		g.prime = hs.Prime
+		if _, err := hs.H.HashBytes([]byte{}); err == nil {
+			// this hasher gives the empty string a hash of its own: empty values are ordinary values under it
+			g.emptyOK = true
+		}
 		root := g.node(g.sch.Root, 0, r.Bool())
 		merklize.SetHasher(poisonHasher{})
 		emitDocQ(out, g, root, randomPresentation(r), hs, 12, "poison-default")
